@@ -47,6 +47,18 @@ def _el(name, attrs, children=None, text=None, ind=2):
     return f'{pad}<{name}{a}/>\n'
 
 
+def _xt(obj):
+    """(extra attributes, text as written) of a text element: `_preserve` writes xml:space="preserve" and
+    the text as it is; `_pad` writes the (whitespace-normalised) text with insignificant white space
+    around and inside it, which the loader must remove"""
+    t = obj['text']
+    if obj.get('_preserve'):
+        return [('xml:space', 'preserve')], t
+    if obj.get('_pad'):
+        return [], '\n        ' + t.replace(' ', ' \n          ', 1) + '  \n      '
+    return [], t
+
+
 def _bool(b):
     return 'true' if b else 'false'
 
@@ -66,7 +78,8 @@ def _rel(r, name, ind):
 
 
 def _ex(e, ind):
-    return _el('Example', [('language', e.get('language'))] + _meta(e.get('meta')), text=e['text'], ind=ind)
+    xa, xt = _xt(e)
+    return _el('Example', [('language', e.get('language'))] + _meta(e.get('meta')) + xa, text=xt, ind=ind)
 
 
 def _formlike(name, f, attrs, ind, v):
@@ -140,10 +153,10 @@ def _synset(s, v):
             at.append(('lexfile', s.get('lexfile')))
         at += _meta(s.get('meta'))
     ch = [_el('Definition', [('language', d.get('language')), ('sourceSense', d.get('sourceSense'))]
-              + _meta(d.get('meta')), text=d['text'], ind=3) for d in s.get('definitions', [])]
+              + _meta(d.get('meta')) + _xt(d)[0], text=_xt(d)[1], ind=3) for d in s.get('definitions', [])]
     if s.get('ili_definition') is not None:
-        ch.append(_el('ILIDefinition', _meta(s['ili_definition'].get('meta')),
-                      text=s['ili_definition']['text'], ind=3))
+        ch.append(_el('ILIDefinition', _meta(s['ili_definition'].get('meta')) + _xt(s['ili_definition'])[0],
+                      text=_xt(s['ili_definition'])[1], ind=3))
     ch += [_rel(r, 'SynsetRelation', 3) for r in s.get('relations', [])]
     ch += [_ex(e, 3) for e in s.get('examples', [])]
     return _el(name, at, ch, ind=2)
@@ -340,14 +353,14 @@ class Gen:
             e = {'id': eid, 'meta': self.meta(), 'lemma': lem}
             forms = []
             seen = {(wf, lem.get('script'))}
-            for k in range(rng.choice([0, 0, 1, 2])):
+            for k in range(rng.choice([0, 0, 1, 2, 3])):
                 f = {'writtenForm': self.s(forms_pool)}
                 if self.coin(0.15):
                     f['script'] = self.s(['Latn', 'Cyrl'])
                 if (f['writtenForm'], f.get('script')) in seen:
                     continue
                 seen.add((f['writtenForm'], f.get('script')))
-                if v != '1.0' and self.coin(0.5):
+                if v != '1.0' and self.coin(0.6):
                     f['id'] = f'{eid}-f{k}'
                 self.formlike(f, v)
                 forms.append(f)
@@ -471,10 +484,13 @@ class Gen:
             forms = []
             if form_like:
                 for bf in be.get('forms', []):
-                    if bf.get('id') and self.coin(0.5):
+                    if bf.get('id') and self.coin(0.6):
                         f = self.formlike({'id': bf['id'], 'external': True}, v)
+                        if len(f) <= 2 and self.coin(0.5):
+                            f['tags'] = [{'text': rng.choice(['x', 'y']), 'category': 'ext'}]
                         if len(f) > 2:
                             forms.append(f)
+                rng.shuffle(forms)       # an ExternalForm is found by its id: its position means nothing
             if with_forms and self.coin(0.5):
                 forms.append({'writtenForm': self.s() + '-xf'})
             if forms:
